@@ -31,6 +31,7 @@ type Ctx struct {
 	contracts map[string]*FuncContract
 	specFuncs map[string]*FuncContract // spec-level name -> extern pure contract
 	lemmas    []*Lemma
+	regexes   []*RegexDecl
 	axioms    []*Lemma
 	axiomSyms map[string][]string
 	specFiles []*SpecFile
@@ -219,6 +220,7 @@ func (c *Ctx) loadSpecs(extra []string) error {
 				}
 				prev.Fresh = prev.Fresh || fc.Fresh
 				prev.Boundary = prev.Boundary || fc.Boundary
+				prev.MayPanic = prev.MayPanic || fc.MayPanic
 				if len(prev.Params) == 0 {
 					prev.Params = fc.Params
 				}
@@ -231,6 +233,7 @@ func (c *Ctx) loadSpecs(extra []string) error {
 		}
 		c.immutDecls = append(c.immutDecls, sf.Immut...)
 		c.lemmas = append(c.lemmas, sf.Lemmas...)
+		c.regexes = append(c.regexes, sf.Regexes...)
 		c.axioms = append(c.axioms, sf.Axioms...)
 	}
 	for _, ax := range c.axioms {
